@@ -1164,6 +1164,9 @@ where
         // Drop the most significant bits up to the desired length, but make sure
         // they encode 0.
         let nb_bits = nb_bits.unwrap_or(K::NUM_BITS as usize);
+        while bits.len() < nb_bits {
+            bits.push(self.native_gadget.assign_fixed(layouter, false)?);
+        }
         bits[nb_bits..]
             .iter()
             .try_for_each(|byte| self.native_gadget.assert_equal_to_fixed(layouter, byte, false))?;
